@@ -13,6 +13,9 @@ def vocab():
 def deep_lines():
     return gen.deep_lines()
 
+def crossclass_lines():
+    return gen.crossclass_lines()
+
 def keyword_lines():
     return gen.keyword_value_lines(vocab())
 
